@@ -460,6 +460,11 @@ impl Task for QueryTask {
     fn max_parallelism(&self) -> usize {
         self.partitions.len()
     }
+    fn abort(&self, reason: &str) {
+        if !self.completed.load(Ordering::SeqCst) {
+            self.fail_with_no_lock(fatal!("Query execution panicked: {}", reason));
+        }
+    }
 }
 
 impl BasicTypeColumn {
